@@ -296,6 +296,26 @@ fn g_lexedge(_rng: &mut Rng, _n: usize) -> Vec<Case> {
     out
 }
 
+/// Documents with more nodes than `<` characters (text between empty-element tags, comments and PIs
+/// in prolog and epilog) under every node limit around the number of `<` and the number of nodes,
+/// for both values of allow_dtd (C15, C16: the limit is honoured the same way whatever else is set).
+fn g_limitedge(_rng: &mut Rng, _n: usize) -> Vec<Case> {
+    let mut out = Vec::new();
+    for k in 1..=6usize {
+        let body: String = (0..k).map(|i| format!("t{}<b/>", i)).collect();
+        let docs = [format!("<a>{}z</a>", body), format!("<a x='1'>{}</a>", body), format!("<!--c--><a>{}z</a><?p?>", body)];
+        for d in docs {
+            let lt = d.matches('<').count();
+            for l in (lt.saturating_sub(1))..=(2 * k + 6) {
+                for dtd in [false, true] {
+                    out.push(Case { dtd, limit: l as u32, text: d.clone().into_bytes() });
+                }
+            }
+        }
+    }
+    out
+}
+
 /// Elements with many attributes (the duplicate check and the attribute table at sizes where an
 /// implementation may switch strategy), with and without duplicates by expanded name (C05, C19).
 fn g_manyattrs(_rng: &mut Rng, _n: usize) -> Vec<Case> {
@@ -440,6 +460,7 @@ pub fn gen(name: &str, rng: &mut Rng, n: usize, _args: &[String]) -> Vec<Case> {
         "dtdjunk" => g_dtdjunk(rng, n),
         "dtdlit" => g_dtdlit(rng, n),
         "lexedge" => g_lexedge(rng, n),
+        "limitedge" => g_limitedge(rng, n),
         "manyattrs" => g_manyattrs(rng, n),
         "cdatalines" => g_cdatalines(rng, n),
         "entnames" => g_entnames(rng, n),
